@@ -3,6 +3,9 @@
 Engine P.  Coordinates are dyadic (Gaussian) rationals, linear maps / translations / normals /
 spanning sets are small integer matrices, so every oracle value is exact in float64 and the
 comparisons are at 1e-12; transversality and eigen-data are decided exactly (mc/oracle/linalg.py).
+Affine linear maps and translations are also taken over the Gaussian integers / dyadics (complex maps and
+complex translations on real and complex points); composite transformations with mixed spectra check that
+eigenvector(lambda) reports zero coordinates exactly for the members without that eigenvalue.
 """
 import functools
 import itertools
@@ -41,6 +44,21 @@ def _quiet(fn):
 
 def _cx(z):
     return complex(z[0], z[1]) if isinstance(z, (list, tuple)) else z
+
+
+def _carr(x):
+    """ndarray from its JSON-able form: a nested list of floats (float64), or {"re": ..., "im": ...}
+    (complex128)"""
+    if isinstance(x, dict):
+        return np.array(x["re"], dtype=float) + 1j * np.array(x["im"], dtype=float)
+    return np.array(x, dtype=float)
+
+
+def _cjson(M):
+    """JSON-able form of a nested list of Python numbers (complex allowed)"""
+    def part(y, f):
+        return [part(z, f) for z in y] if isinstance(y, (list, tuple)) else float(f(complex(y)))
+    return {"re": part(M, lambda z: z.real), "im": part(M, lambda z: z.imag)}
 
 
 def _alphabet(field, size):
@@ -325,6 +343,65 @@ def linear_alphabet(N, quick):
     return mats
 
 
+def _cdet(M):
+    """determinant of a small square matrix of Gaussian integers (exact in complex128: cofactor expansion)"""
+    n = len(M)
+    if n == 1:
+        return M[0][0]
+    return sum(((-1) ** c) * M[0][c] * _cdet([r[:c] + r[c + 1:] for r in M[1:]]) for c in range(n) if M[0][c] != 0)
+
+
+def complex_linear_alphabet(N, quick):
+    """invertible N x N matrices over the Gaussian integers with a non-real entry (nested lists of Python
+    numbers).  N = 1: a few units and non-units; N = 2 (N = 3 thorough): every matrix with entries in
+    {0, 1, -1, i, -i} ({0, 1, i}) and non-zero determinant; else a structured unimodular family:
+    elementary matrices with +-i off the diagonal, diag(.., +-i, ..), i * permutation, and D Q, Q D for the
+    integer unimodular family Q and D = diag(i^0, i^1, i^2, ...)."""
+    mats = []
+
+    def add(M):
+        M = [[complex(x) for x in r] for r in M]
+        if any(x.imag != 0 for r in M for x in r) and M not in mats:
+            mats.append(M)
+    if N == 1:
+        for x in (1j, -1j, 1 + 2j, -0.5j, -2 + 1j):
+            add([[x]])
+        return mats
+    if N == 2 or (N == 3 and not quick):
+        ent = (0, 1, -1, 1j, -1j) if N == 2 else (0, 1, 1j)
+        for flat in itertools.product(ent, repeat=N * N):
+            M = [list(flat[r * N:(r + 1) * N]) for r in range(N)]
+            if _cdet(M) != 0:
+                add(M)
+        return mats
+    for a in range(N):
+        for b in range(N):
+            if a != b:
+                add(L.elementary(N, a, b, 1j))
+                add(L.elementary(N, a, b, -1j))
+    for a in range(N):
+        for u in (1j, -1j):
+            D = L.iidentity(N)
+            D[a][a] = u
+            add(D)
+        for b in range(a + 1, N):
+            P = L.iidentity(N)
+            P[a][a] = P[b][b] = 0
+            P[a][b] = 1j
+            P[b][a] = 1
+            add(P)
+    Dg = [[(1j ** a) if a == b else 0 for b in range(N)] for a in range(N)]
+    for Q in L.unimodular_family(N):
+        add([[Dg[a][a] * Q[a][b] for b in range(N)] for a in range(N)])
+        add([[Q[a][b] * Dg[b][b] for b in range(N)] for a in range(N)])
+    return mats
+
+
+def complex_translation_alphabet(N, quick):
+    ent = (0.0, 1j, 2.0) if (quick and N >= 4) else (0.0, 1j, -1.0 + 0.5j, 2.0)
+    return [list(t) for t in itertools.product(ent, repeat=N)]
+
+
 def translation_alphabet(N, quick):
     ent = (-1.0, 0.0, 2.0) if (quick and N >= 4) else (-1.0, 0.0, 2.0, 0.5)
     return [list(t) for t in itertools.product(ent, repeat=N)]
@@ -334,10 +411,12 @@ def translation_alphabet(N, quick):
 def case_affine_linear(case):
     from geometry_tools import projective
     N, i = case["N"], case["i"]
-    X = _vectors("real", N, case["size"])
+    pfield = case.get("pfield", "real")
+    X = _vectors(pfield, N, case["size"])
     v, t = [], 0
     for Lm in case["maps"]:
-        Lf = np.array(Lm, dtype=float)
+        Lf = _carr(Lm)
+        fcls = "" if (pfield == "real" and not isinstance(Lm, dict)) else "/%s-map-%s-points" % ("complex" if isinstance(Lm, dict) else "real", pfield)
         for cv in (True, False, None):
             if cv is None:
                 T = projective.affine_linear_map(Lf.copy(), i)
@@ -351,38 +430,42 @@ def case_affine_linear(case):
             raised, Y = _raises_geometry_error(lambda: img.affine_coords(chart_index=i))
             t += 3
             if raised:
-                v.append(_V("affine_linear_map/leaves-chart/%s" % cvn, "N=%d chart %d L=%r: an image point left the chart" % (N, i, Lm)))
+                v.append(_V("affine_linear_map/leaves-chart/%s%s" % (cvn, fcls), "N=%d chart %d L=%r: an image point left the chart" % (N, i, Lf.tolist())))
                 break
             e = _maxerr(Y, want)
             if not e <= TAU * (1.0 + float(np.max(np.abs(want)))):
-                v.append(_V("affine_linear_map/action/%s" % cvn, "N=%d chart %d L=%r: chart action differs from the linear map by %.3g" % (N, i, Lm, e)))
+                v.append(_V("affine_linear_map/action/%s%s" % (cvn, fcls), "N=%d chart %d L=%r: chart action differs from the linear map by %.3g" % (N, i, Lf.tolist(), e)))
                 break
         if len(v) > 3:
             break
-    return {"v": v[:4], "t": t, "o": repr((N, i, len(case["maps"]), case["maps"][0])), "nt": True}
+    return {"v": v[:4], "t": t, "o": repr((N, i, pfield, len(case["maps"]), case["maps"][0])), "nt": True}
 
 
 @_quiet
 def case_affine_translation(case):
     from geometry_tools import projective
     N, i = case["N"], case["i"]
-    X = _vectors("real", N, case["size"])
+    pfield = case.get("pfield", "real")
+    X = _vectors(pfield, N, case["size"])
     v, t = [], 0
-    for tv in case["translations"]:
-        tf = np.array(tv, dtype=float)
+    trs = _carr(case["translations"])
+    fcls = "" if (pfield == "real" and not isinstance(case["translations"], dict)) else "/%s-translation-%s-points" % (
+        "complex" if isinstance(case["translations"], dict) else "real", pfield)
+    for tf in trs:
+        tv = tf.tolist()
         T = projective.affine_translation(tf.copy(), i)
         img = T @ projective.Point(X.copy(), chart_index=i)
         raised, Y = _raises_geometry_error(lambda: img.affine_coords(chart_index=i))
         t += 3
         if raised:
-            v.append(_V("affine_translation/leaves-chart", "N=%d chart %d t=%r: an image point left the chart" % (N, i, tv)))
+            v.append(_V("affine_translation/leaves-chart" + fcls, "N=%d chart %d t=%r: an image point left the chart" % (N, i, tv)))
             continue
         e = _maxerr(Y, X + tf)
         if not e <= TAU * (1.0 + float(np.max(np.abs(X + tf)))):
-            v.append(_V("affine_translation/action", "N=%d chart %d t=%r: chart action differs from x+t by %.3g" % (N, i, tv, e)))
+            v.append(_V("affine_translation/action" + fcls, "N=%d chart %d t=%r: chart action differs from x+t by %.3g" % (N, i, tv, e)))
         if len(v) > 3:
             break
-    return {"v": v[:4], "t": t, "o": repr((N, i, len(case["translations"]), case["translations"][0])), "nt": True}
+    return {"v": v[:4], "t": t, "o": repr((N, i, pfield, len(trs), trs[0].tolist())), "nt": True}
 
 
 @_quiet
@@ -570,6 +653,16 @@ def case_eigen(case):
                 e = _maxerr(img, lam * vec)
                 if not e <= 1e-9 * (1.0 + float(np.max(np.abs(M)))) * float(np.max(np.abs(vec))):
                     v.append(_V("eigenvector/image/" + oname, "eigenvalues %r lambda=%r: T @ P differs from lambda*P by %.3g" % (D, lam, e)))
+        for lam in case.get("absent", []):
+            # not an eigenvalue: GeometryError, or the documented degenerate (zero) coordinates; never a
+            # non-zero vector (it cannot be mapped to lam times itself)
+            raised, P = _raises_geometry_error(lambda: T.eigenvector(float(lam)))
+            t += 1
+            if not raised:
+                vec = np.asarray(P.proj_data)
+                if vec.shape != (n,) or not float(np.max(np.abs(vec))) <= 1e-12:
+                    v.append(_V("eigenvector/reported-for-absent-eigenvalue/" + oname, "eigenvalues %r conj %d, lambda=%r is not an eigenvalue: returned %r"
+                                % (D, qi, lam, vec.tolist())))
         P = T.eigenvector()
         t += 1
         vec = np.asarray(P.proj_data)
@@ -601,9 +694,23 @@ def case_eigen(case):
     return {"v": v[:4], "t": t, "o": repr((n, qi, D)), "nt": len(set(D)) > 1 or qi > 0}
 
 
+def _check_any_eigvec(v, M, D, vec, where):
+    if vec.shape != (M.shape[0],) or not np.all(np.isfinite(vec)) or float(np.max(np.abs(vec))) < 1e-6:
+        v.append(_V("eigenvector/degenerate/any/" + where, "eigenvalues %r: eigenvector() returned %r" % (D, vec.tolist() if vec.ndim == 1 else vec.shape)))
+        return
+    u = vec / np.max(np.abs(vec))
+    mu = float((u @ M) @ u / (u @ u))
+    if not (float(np.max(np.abs(u @ M - mu * u))) <= 1e-9 * (1.0 + float(np.max(np.abs(M)))) and min(abs(mu - d) for d in D) <= 1e-8):
+        v.append(_V("eigenvector/not-an-eigenvector/any/" + where, "eigenvalues %r: eigenvector() = %r" % (D, u.tolist())))
+
+
 @_quiet
 def case_eigen_batch(case):
-    """composite transformation whose members share the eigenvalue lambda."""
+    """composite transformation, eigenvector(lambda) / eigenvector() / diagonalize member by member.
+    A member has the eigenvalue lambda exactly when lambda occurs in its D (the matrix is Q^-1 D Q with
+    integer unimodular Q): then a non-zero vector with v M = lambda v is required; otherwise the
+    reported coordinates must be the documented degenerate ones (zero) - a non-zero vector could not be
+    mapped to lambda times itself."""
     from geometry_tools import projective
     n, lam = case["n"], case["lam"]
     members = case["members"]                  # list of [conj index, D]
@@ -612,20 +719,42 @@ def case_eigen_batch(case):
     cnt = int(np.prod(shape))
     idx = [j % len(mats) for j in range(cnt)]
     arr = np.stack([mats[j] for j in idx]).reshape(shape + (n, n))
-    T = projective.Transformation(arr.copy())
+    has = [lam in members[idx[j]][1] for j in range(cnt)]
+    mixed = not all(has)
     v, t = [], 0
-    P = T.eigenvector(float(lam))
-    t += 1
-    vec = np.asarray(P.proj_data)
-    if vec.shape != shape + (n,):
-        v.append(_V("eigenvector/shape/batch", "composite shape %r: eigenvector data shape %r" % (shape, vec.shape)))
-    else:
-        vf = vec.reshape((cnt, n))
-        for j in range(cnt):
-            qi, D = members[idx[j]]
-            _check_eigvec(v, mats[idx[j]], None, D, lam, vf[j], "batch")
-            if v:
-                break
+    objs = [("batch", projective.Transformation(arr.copy()))]
+    if mixed or case.get("columns"):
+        objs.append(("batch-columns", projective.Transformation(np.swapaxes(arr, -1, -2).copy(), column_vectors=True)))
+    for oname, T in objs:
+        P = T.eigenvector(float(lam))
+        t += 1
+        vec = np.asarray(P.proj_data)
+        if vec.shape != shape + (n,):
+            v.append(_V("eigenvector/shape/" + oname, "composite shape %r: eigenvector data shape %r" % (shape, vec.shape)))
+        else:
+            vf = vec.reshape((cnt, n))
+            for j in range(cnt):
+                qi, D = members[idx[j]]
+                if has[j]:
+                    _check_eigvec(v, mats[idx[j]], None, D, lam, vf[j], oname)
+                elif not (np.all(np.isfinite(vf[j])) and float(np.max(np.abs(vf[j]))) <= 1e-12):
+                    v.append(_V("eigenvector/reported-for-absent-eigenvalue/" + oname,
+                                "composite shape %r, member %d (eigenvalues %r conj %d; members having lambda=%r: %r): returned %r"
+                                % (shape, j, D, qi, lam, has, vf[j].tolist())))
+                if v:
+                    break
+        if mixed:
+            P = T.eigenvector()
+            t += 1
+            vec = np.asarray(P.proj_data)
+            if vec.shape != shape + (n,):
+                v.append(_V("eigenvector/shape/any/" + oname, "composite shape %r: eigenvector() data shape %r" % (shape, vec.shape)))
+            else:
+                vf = vec.reshape((cnt, n))
+                for j in range(cnt):
+                    if not v:
+                        _check_any_eigvec(v, mats[idx[j]], members[idx[j]][1], vf[j], oname)
+    T = objs[0][1]
     C = T.diagonalize()
     Dg = (C.inv() @ T @ C).matrix
     t += 4
@@ -640,7 +769,7 @@ def case_eigen_batch(case):
             if not (off <= 1e-9 * (1.0 + float(np.max(np.abs(mats[idx[j]])))) and _maxerr(np.array(dd), np.array(sorted(float(x) for x in D))) <= 1e-8):
                 v.append(_V("diagonalize/not-diagonal/batch", "member %r of composite %r: off-diagonal %.3g diagonal %r" % (members[idx[j]], shape, off, dd)))
                 break
-    return {"v": v[:4], "t": t, "o": repr((n, lam, shape, members[0])), "nt": True}
+    return {"v": v[:4], "t": t, "o": repr((n, lam, shape, members, has)), "nt": True}
 
 
 # ------------------------------------------------------------------------------------------
@@ -709,8 +838,8 @@ def run(ctx):
     seed = ctx.seed
     ctx.rule = ("projective dimension N = 1..5, every chart index, row/column layout, real and complex dyadic coordinate alphabets "
                 "(complete products), real and complex rescalings; invertible integer linear maps / translations / normals from complete "
-                "small alphabets; subspaces = spans of subsets of {standard basis + Vandermonde rows}, every transverse pair "
-                "(exact rank test); conjugates Q^-1 D Q of integer diagonal matrices by unimodular Q; a case is non-trivial when it is in the domain")
+                "small alphabets, Gaussian-integer linear maps and complex translations on real and complex points; subspaces = spans of subsets of {standard basis + Vandermonde rows}, every transverse pair "
+                "(exact rank test); conjugates Q^-1 D Q of integer diagonal matrices by unimodular Q, singly and in composites with equal or mixed spectra; a case is non-trivial when it is in the domain")
     ctx.assume("affine coordinates are dyadic Gaussian rationals, so (a, 1) and its conversions are exact in float64; rescaling by lambda "
                "costs at most a few ulp (tolerance 1e-12)")
     ctx.assume("a point is outside chart i exactly when its i-th homogeneous coordinate is exactly 0 (real or complex)")
@@ -718,6 +847,13 @@ def run(ctx):
     ctx.assume("Subspace.intersect: both spanning sets are linearly independent, the pair is transverse (stacked exact rank = N+1) and the "
                "intersection is non-empty (k + l >= N + 2 in vector-space dimensions); composite operands contain transverse pairs only")
     ctx.assume("eigenvector / diagonalize: diagonalisable matrices with real integer eigenvalues (repeated eigenvalues allowed)")
+    ctx.assume("eigenvector(lambda) for a lambda that is not an eigenvalue (decided exactly: lambda does not occur in D; all eigenvalues and "
+               "requested values are >= 0.5 apart, far outside np.isclose): a single transformation may raise GeometryError or return zero "
+               "coordinates, a member of a composite gets zero coordinates (documented 'degenerate'); a non-zero vector is a violation "
+               "because it is not mapped to lambda times itself")
+    ctx.assume("linear maps and translations may be complex (the property quantifies over real and complex coordinates and the embedding "
+               "affine_linear_map keeps the dtype of its argument); normals of hyperplane_coordinate_transform stay real: its docstring "
+               "documents a normal vector of a hyperplane in R^n and an orthogonal matrix")
     ctx.assume("hyperplane_coordinate_transform: 'takes the chart x.n != 0 to the chart x_0 != 0' with an orthogonal matrix, i.e. "
                "|x_0(image)| = |x.n|/|n| for every x")
     ctx.tolerances["charts"] = "exact for (a,1); 1e-12*(1+|a|) after rescaling"
@@ -737,7 +873,9 @@ def run(ctx):
                 domains={"homogeneous alphabets": {"real": REAL_H, "complex": [repr(z) for z in CPLX_H]},
                          "routes": ["affine_coords()", "Point.affine_coords()", "column layout", "in_affine_chart"]}, chunk=1)
 
-    lin_cases, tr_cases = [], []
+    lin_cases, tr_cases, clin_cases, ctr_cases = [], [], [], []
+    cmaps = {N: complex_linear_alphabet(N, q) for N in range(1, 6)}
+    ctrs = {N: complex_translation_alphabet(N, q) for N in range(1, 6)}
     for N in range(1, 6):
         size = alphabet_size("real", N, q)
         maps = linear_alphabet(N, q)
@@ -747,11 +885,34 @@ def run(ctx):
                 lin_cases.append({"N": N, "i": i, "maps": blk, "size": min(size, 4)})
             for blk in _blocks(trs, 64):
                 tr_cases.append({"N": N, "i": i, "translations": blk, "size": min(size, 4)})
+            # the same over the complex numbers: real maps on complex points, complex maps on real and
+            # on complex points
+            csize = min(alphabet_size("complex", N, q), 4 if N <= 3 else 3)
+            for blk in _blocks(maps, 16):
+                clin_cases.append({"N": N, "i": i, "maps": blk, "size": csize, "pfield": "complex"})
+            for blk in _blocks(trs, 64):
+                ctr_cases.append({"N": N, "i": i, "translations": blk, "size": csize, "pfield": "complex"})
+            for pfield in ("real", "complex"):
+                for blk in _blocks(cmaps[N], 16):
+                    clin_cases.append({"N": N, "i": i, "maps": [_cjson(M) for M in blk], "size": csize, "pfield": pfield})
+                for blk in _blocks(ctrs[N], 64):
+                    ctr_cases.append({"N": N, "i": i, "translations": _cjson(blk), "size": csize, "pfield": pfield})
     ctx.product("affine_linear_map", "checks.c16:case_affine_linear", lin_cases,
                 domains={"maps per N": [len(linear_alphabet(N, q)) for N in range(1, 6)], "column_vectors": [True, False, "default"],
                          "points": "complete alphabet product"}, chunk=4)
     ctx.product("affine_translation", "checks.c16:case_affine_translation", tr_cases,
                 domains={"translations per N": [len(translation_alphabet(N, q)) for N in range(1, 6)]}, chunk=4)
+
+    ctx.product("affine_linear_map-complex", "checks.c16:case_affine_linear", clin_cases,
+                domains={"complex maps per N": [len(cmaps[N]) for N in range(1, 6)],
+                         "complex maps": "N=1: units and non-units; N=2 (thorough: N=3): all invertible matrices over {0,1,-1,i,-i} ({0,1,i}) with a "
+                                         "non-real entry; else elementary / diagonal / permutation matrices with +-i and D Q, Q D (Q integer unimodular, D = diag(i^k))",
+                         "combinations": ["real map, complex points", "complex map, real points", "complex map, complex points"],
+                         "column_vectors": [True, False, "default"], "points": "complete product of the complex alphabet (first 3-4 letters)"}, chunk=4)
+    ctx.product("affine_translation-complex", "checks.c16:case_affine_translation", ctr_cases,
+                domains={"complex translations per N": [len(ctrs[N]) for N in range(1, 6)],
+                         "entries": "{0, i, -1+0.5i, 2} (quick N>=4: {0, i, 2}), complete product, handed over as a complex array",
+                         "combinations": ["real translation, complex points", "complex translation, real points", "complex translation, complex points"]}, chunk=4)
 
     hp_cases = []
     for N in range(1, 6):
@@ -783,7 +944,7 @@ def run(ctx):
             for D in itertools.product(vals, repeat=n):
                 if n >= 5 and (q or n == 6) and list(D) != sorted(D):
                     continue               # large n: one ordering per multiset
-                eig_cases.append({"n": n, "conj": qi, "D": list(D)})
+                eig_cases.append({"n": n, "conj": qi, "D": list(D), "absent": [x for x in vals + [0, -2] if x not in D]})
         nq = len(L.unimodular_family(n))
         for lam in vals:
             others = [x for x in vals if x != lam]
@@ -791,7 +952,33 @@ def run(ctx):
             members.append([(1 + seed) % nq, [others[a % 3] for a in range(n - 1)] + [lam]])
             for shape in [(1,), (2,), (3,), (2, 2), (3, 2), (1, 3)]:
                 eig_batch.append({"n": n, "lam": lam, "members": members, "shape": list(shape)})
+    # composite transformations with mixed spectra: every pattern of (member has lambda / does not)
+    eig_mixed = []
+    for n in range(2, 7):
+        nq = len(L.unimodular_family(n))
+        for lam in vals:
+            others = [x for x in vals if x != lam]
+            for shape in [(1,), (2,), (3,), (2, 2)]:
+                cnt = int(np.prod(shape))
+                for pattern in itertools.product((True, False), repeat=cnt):
+                    if all(pattern):
+                        continue               # covered by eigenvector-diagonalize-batch
+                    members = []
+                    for j, h in enumerate(pattern):
+                        D = [others[(j + a) % 3] for a in range(n)]
+                        if h:
+                            D[(j + seed) % n] = lam
+                            if n >= 3 and j % 2 == 1:
+                                D[(j + seed + 1) % n] = lam          # multiplicity 2
+                        members.append([(j + seed) % nq, D])
+                    eig_mixed.append({"n": n, "lam": lam, "members": members, "shape": list(shape)})
     ctx.product("eigenvector-diagonalize", "checks.c16:case_eigen", eig_cases,
                 domains={"eigenvalue alphabet": vals, "n": "2..6", "conjugators": "unimodular family"}, chunk=32)
     ctx.product("eigenvector-diagonalize-batch", "checks.c16:case_eigen_batch", eig_batch,
                 domains={"shapes": [(1,), (2,), (3,), (2, 2), (3, 2), (1, 3)]}, chunk=8)
+    ctx.product("eigenvector-batch-mixed-spectra", "checks.c16:case_eigen_batch", eig_mixed,
+                domains={"n": "2..6", "lambda": vals, "shapes": [(1,), (2,), (3,), (2, 2)],
+                         "members": "every pattern of 'has lambda' / 'does not' over the positions except all-have (2^k - 1 patterns); lambda at a "
+                                    "position of D that moves with the member, multiplicity 2 for odd members (n >= 3); one conjugator per member",
+                         "layouts": ["row matrices", "column_vectors=True"],
+                         "calls": ["eigenvector(lambda)", "eigenvector()", "diagonalize()"]}, chunk=8)
